@@ -584,6 +584,15 @@ theorem C20_judge_walk_iff (dec : Nat → Dec) (adjust limit : Nat) (items : Lis
     subst ha
     exact (chain_cons hch).1
 
+/-- **The judge's oracle check discharges the oracle assumptions.** Every case carries the decoder oracle as a
+table; the judge evaluates `tableOk` on it (clause 0, reason "assumption violated"). When that check passes, the
+oracle the model and the judge use for the case (`decOfTable`, = `C20.Case.dec`) satisfies `OracleOK` and
+`OracleTail`, i.e. the hypotheses of `C20_query_tail` hold for that case — so for every case the check lets
+through, the conclusions of `C20_query_tail` hold of the model's answer with no assumption left. -/
+theorem C20_table_oracle (adjust n : Nat) (tab : List Dec) (h : tableOk adjust n tab 0 = true) :
+    OracleOK n (decOfTable tab) ∧ OracleTail adjust n (decOfTable tab) :=
+  tableOk_oracle h
+
 /-! ### The repaired defect (2d669439): the pre-fix `size` came from the re-created reader -/
 
 /-- x86-like oracle on a 21-byte slice: a 2-byte instruction, then one undecodable byte, then 1-byte
